@@ -137,12 +137,17 @@ class Gen:
 	mode 'pytype' : only constructs with a pure CPython counterpart in Tranp/Model/PyEval.lean, with small operands
 	"""
 
-	def __init__(self, rng: random.Random, env: list[tuple[str, Ty]], mode: str, hetero_ok: bool = False) -> None:
+	def __init__(self, rng: random.Random, env: list[tuple[str, Ty]], mode: str, hetero_ok: bool = False, session: dict[str, int] | None = None) -> None:
 		self.rng = rng
 		self.env = env
 		self.mode = mode
-		self.hetero_ok = hetero_ok      # may emit ONE heterogeneous list literal (session state of on_list)
-		self.hetero_used = False
+		self.small = mode in ('pytype', 'search')   # operands of <<, >>, sequence *, range() stay small enough to evaluate
+		self.pure = mode == 'pytype'
+		self.hetero_ok = hetero_ok
+		# `session['hetero']` = how many list literals with elements of different classes (e.g. `[a, None]`) may still be
+		# emitted in this inference session: the second one raises Errors.Never in the real code (finding
+		# list-literal-shared-union) and would mask everything generated after it
+		self.session = session
 		self.in_comp = 0
 		self.fresh = 0
 		self.bound: list[tuple[str, Ty]] = []
@@ -186,6 +191,7 @@ class Gen:
 			leaf = [*leaf, (3.0, lambda: Src(self.rng.choice(vs), P_ATOM, True))]
 		if depth <= 0:
 			return leaf
+		leaf = [(w * 0.4, f) for w, f in leaf]
 		generic = [
 			(0.5, lambda: self.group(t, depth)),
 			(0.7, lambda: self.ternary(t, depth)),
@@ -248,14 +254,14 @@ class Gen:
 		return self.rng.choice(cands)()
 
 	def index_key(self, depth: int) -> Src:
-		if self.mode == 'pytype' or self.rng.random() < 0.6:
+		if self.small or self.rng.random() < 0.6:
 			return Src(str(self.rng.randint(0, 2)), P_ATOM)
 		return self.expr(INT, min(depth, 1))
 
 	def call_returning(self, t: Ty, depth: int, must: bool = False) -> Src:
 		cands: list[Any] = []
 		d1 = depth - 1
-		pure = self.mode == 'pytype'
+		pure = self.pure
 
 		def recv(u: Ty) -> Src | None:
 			return self.receiver(u, d1)
@@ -339,7 +345,7 @@ class Gen:
 	def iter_source(self, el: Ty, depth: int) -> Src | None:
 		"""an iterable whose items have type el (what `for x in …` / `list(…)` consume)"""
 		cands: list[Any] = []
-		pure = self.mode == 'pytype'
+		pure = self.pure
 		lst = self.receiver(('list', el), depth)
 		if lst is not None:
 			cands += [lambda: lst] * 2
@@ -363,7 +369,7 @@ class Gen:
 		return self.rng.choice(cands)()
 
 	def range_arg(self, depth: int) -> Src:
-		if self.mode == 'pytype':
+		if self.small:
 			return Src(str(self.rng.randint(0, 4)), P_ATOM)
 		return self.expr(INT, min(depth, 1))
 
@@ -451,9 +457,6 @@ class Gen:
 			res = py_chain_type(tys, ops)
 			if res != want or not stub_accepts(tys, ops):
 				continue
-			if self.mode == 'pytype':
-				# keep divisors away from the literal 0 so that most cases evaluate
-				pass
 			text = operands[0][0].at(level + 1)
 			for op, (o, _) in zip(ops, operands[1:]):
 				text += f' {op} {o.at(level + 1)}'
@@ -466,7 +469,7 @@ class Gen:
 		level = BIN_LEVEL[op]
 		l = self.expr(INT, depth)
 		if op in ('<<', '>>'):
-			r = self.small_int() if self.mode == 'pytype' or rng.random() < 0.5 else self.expr(INT, min(depth, 1))
+			r = self.small_int() if self.small or rng.random() < 0.5 else self.expr(INT, min(depth, 1))
 		else:
 			r = self.expr(rng.choice([INT, INT, BOOL]), depth)
 		return Src(f'{l.at(level + 1)} {op} {r.at(level + 1)}', level)
@@ -522,7 +525,7 @@ class Gen:
 		return Src(' + '.join(self.expr(STR, depth).at(P_TERM) for _ in range(n)), P_SUM)
 
 	def seq_repeat(self, t: Ty, depth: int) -> Src:
-		n = self.small_int() if self.mode == 'pytype' or self.rng.random() < 0.6 else self.expr(INT, min(depth, 1))
+		n = self.small_int() if self.small or self.rng.random() < 0.6 else self.expr(INT, min(depth, 1))
 		sq = self.expr(t, depth)
 		if self.rng.random() < 0.5:
 			return Src(f'{sq.at(P_FACTOR)} * {n.at(P_FACTOR)}', P_TERM)
@@ -540,6 +543,14 @@ class Gen:
 
 	def list_literal(self, el: Ty, depth: int) -> Src:
 		n = self.rng.randint(1, 3)
+		if el[0] == 'opt' and self.session is not None:
+			# all-None or all-non-None unless the session still has budget for a literal mixing classes
+			if self.session.get('hetero', 0) > 0 and self.in_comp == 0 and self.rng.random() < 0.5:
+				self.session['hetero'] -= 1
+				items = [self.expr(el[1], depth).text, 'None'] + [self.expr(el, depth).text for _ in range(n - 1)]
+				self.rng.shuffle(items)
+				return Src('[' + ', '.join(items) + ']', P_ATOM)
+			el = el[1] if self.rng.random() < 0.8 else NONE
 		return Src('[' + ', '.join(self.expr(el, depth).text for _ in range(n)) + ']', P_ATOM)
 
 	def dict_literal(self, kt: Ty, vt: Ty, depth: int) -> Src:
